@@ -31,7 +31,7 @@ Definition ev_cur (le lr : bool) (c : batch) : list ev :=
 Definition ev_a (le : bool) (a : apc) : list ev :=
   match a with
   | ASend b rest => ev_b le b ++ ev_hist le rest
-  | AWait rest => ev_hist le rest
+  | ASent rest | AWait rest => ev_hist le rest
   | _ => []
   end.
 
@@ -198,7 +198,7 @@ Proof.
   - unfold do_sync in H. cbn [cs ap rc dc] in H.
     destruct (sync (fixed le) r d c a) as [[c' a']|] eqn:E; [|discriminate]. injection H as <-.
     left. unfold sync in E.
-    destruct (pc c) eqn:Hpc; try discriminate; destruct a as [b rest|rest| | | |]; try discriminate.
+    destruct (pc c) eqn:Hpc; try discriminate; destruct a as [b rest|rest|rest| | | |]; try discriminate.
     + destruct d; [discriminate|]. injection E as <- <-. unfold ainv. cbn [cs ap rc dc].
       rewrite ev_a_next. unfold set_pc, pend in *. cbn [out cur lrep closed first pc pc_close] in *. auto.
     + destruct r; [discriminate|]. injection E as <- <-. unfold ainv. cbn [cs ap rc dc].
@@ -215,7 +215,7 @@ Proof.
       * rewrite Hc'. subst c1. cbn [closed]. rewrite Hclosed. discriminate.
       * intros Hf1. rewrite Hf' in Hf1; [discriminate|]. subst c1. cbn [first]. exact Hfirst.
   - unfold do_tau_c in H. cbn [cs ap rc dc] in H.
-    destruct (tau_c (fixed le) r d c) as [c'|] eqn:E; [|discriminate]. injection H as <-.
+    destruct (tau_c (fixed le) r d (is_parked a) c) as [c'|] eqn:E; [|discriminate]. injection H as <-.
     unfold tau_c in E. destruct (pc c) eqn:Hpc.
     + destruct (ops c) as [|o ro] eqn:Hops; [discriminate|]. destruct o as [n|m|]; injection E as <-.
       * left. unfold read_begin. cbn [initiated fixed].
@@ -288,14 +288,15 @@ Proof.
     + destruct r; [discriminate|]. injection E as <- _. exact Hn.
     + destruct d; [discriminate|]. injection E as <- _. exact Hn.
   - unfold do_tau_c in H. cbn [cs ap rc dc] in H.
-    destruct (tau_c g r d c) as [c'|] eqn:E; [|discriminate]. injection H as <-. cbn [cs].
+    destruct (tau_c g r d (is_parked a) c) as [c'|] eqn:E; [|discriminate]. injection H as <-. cbn [cs].
     unfold tau_c in E. destruct (pc c).
     + destruct (ops c) as [|o ro] eqn:Hops; [discriminate|]. cbn [existsb] in Hn. apply orb_false_iff in Hn.
       destruct Hn as [Ho Hn]. destruct o; [| |discriminate]; injection E as <-; unfold read_begin;
         (destruct (initiated g); [apply noclose_loop|]); exact Hn.
     + destruct d; [|discriminate]. injection E as <-. exact Hn.
     + destruct r; [|discriminate]. injection E as <-. unfold read_recv_closed. apply noclose_loop. exact Hn.
-    + destruct d; [|discriminate]. injection E as <-. exact Hn.
+    + destruct d; [injection E as <-; exact Hn|].
+      destruct (ack_nb g && negb (is_parked a)); [injection E as <-; exact Hn | discriminate].
     + destruct r; [|discriminate]. injection E as <-. exact Hn.
     + destruct d; [|discriminate]. injection E as <-. exact Hn.
     + discriminate.
@@ -385,7 +386,7 @@ Proof.
   - unfold do_sync in H. cbn [cs ap rc dc] in H.
     destruct (sync (fixed le) r d c a) as [[c' a']|] eqn:E; [|discriminate]. injection H as <-. cbn [cs].
     unfold sync in E.
-    destruct (pc c) eqn:Hpc; try discriminate; destruct a as [b rest|rest| | | |]; try discriminate.
+    destruct (pc c) eqn:Hpc; try discriminate; destruct a as [b rest|rest|rest| | | |]; try discriminate.
     + destruct d; [discriminate|]. injection E as <- _. unfold einv, set_pc. cbn [pc cur out closed pc_close] in *. efin.
     + destruct r; [discriminate|]. injection E as <- _. destruct Hc as [_ [Hclosed _]].
       unfold read_recv_ok. apply einv_loop; unfold c_strip; cbn [out closed cur]; auto.
@@ -394,7 +395,7 @@ Proof.
     + destruct r; [discriminate|]. injection E as <- _. unfold einv, close_recv_ok. cbn [pc cur out closed pc_close] in *. efin.
     + destruct d; [discriminate|]. injection E as <- _. unfold einv, set_pc. cbn [pc cur out closed pc_close] in *. efin.
   - unfold do_tau_c in H. cbn [cs ap rc dc] in H.
-    destruct (tau_c (fixed le) r d c) as [c'|] eqn:E; [|discriminate]. injection H as <-. cbn [cs].
+    destruct (tau_c (fixed le) r d (is_parked a) c) as [c'|] eqn:E; [|discriminate]. injection H as <-. cbn [cs].
     unfold tau_c in E. destruct (pc c) eqn:Hpc.
     + destruct (ops c) as [|o ro] eqn:Hops; [discriminate|]. destruct o as [n|m|]; injection E as <-.
       * unfold read_begin. cbn [initiated fixed]. apply einv_loop; unfold c_strip, set_ops; cbn [out closed cur lrep]; auto.
@@ -440,7 +441,7 @@ Proof.
   - unfold do_sync in H. cbn [cs ap rc dc] in H.
     destruct (sync (fixed le) r d c a) as [[c' a']|] eqn:E; [|discriminate]. injection H as <-.
     unfold sync in E. unfold binv. cbn [cs].
-    destruct (pc c) eqn:Hpc; try discriminate; destruct a as [b rest|rest| | | |]; try discriminate.
+    destruct (pc c) eqn:Hpc; try discriminate; destruct a as [b rest|rest|rest| | | |]; try discriminate.
     + exfalso. destruct Hc as [_ [Hx _]]. destruct Hcl; congruence.
     + exfalso. destruct Hc as [_ [Hx _]]. destruct Hcl; congruence.
     + destruct d; [discriminate|]. injection E as <- _. unfold close_acked. cbn [closed pc cur out]. eauto.
@@ -449,7 +450,7 @@ Proof.
     + destruct d; [discriminate|]. injection E as <- _. unfold set_pc. cbn [closed pc cur out].
       destruct Hcl as [Hx|Hx]; [|discriminate]. eauto.
   - unfold do_tau_c in H. cbn [cs ap rc dc] in H.
-    destruct (tau_c (fixed le) r d c) as [c'|] eqn:E; [|discriminate]. injection H as <-.
+    destruct (tau_c (fixed le) r d (is_parked a) c) as [c'|] eqn:E; [|discriminate]. injection H as <-.
     unfold tau_c in E. unfold binv. cbn [cs]. destruct (pc c) eqn:Hpc.
     + destruct Hcl as [Hclosed|Hx]; [|discriminate].
       destruct (ops c) as [|o ro] eqn:Hops; [discriminate|]. destruct o as [n|m|]; injection E as <-.
